@@ -73,6 +73,10 @@ class T:
 
     def __init__(self, prog, R, suffix):
         self.f, self.t, self.fl, self.s = template_of(prog, suffix, R)
+        # docs written as `if let Some(doc) { for line in doc.lines() { ts.extend(quote!{#[doc = #line]}) } }` flatten to
+        # OPT[ REP( # [ doc = H ] )* ]; the shape patterns below are written for the equivalent ALT{ ε || REP( ⟨E:..⟩ )* } form
+        self.s = re.sub(r'OPT(\d+)\[ REP(\d+)\( (# (?:! )?\[ doc = ⟨H(\d+)⟩ \]) \)\* \]',
+                        lambda m: 'ALT9%s{  || REP%s( ⟨E%s:%s⟩ )* }' % (m.group(1), m.group(2), m.group(4), m.group(3)), self.s)
         self.holes = {h[0]: h for h in self.fl.holes if not (isinstance(h[1], tuple) and h[1][0] in ('elem', 'vec') and h[2] in ('stream', 'vec'))}
         self.reps = {r[0]: r for r in self.fl.reps}
         self.alts = {a[0]: a for a in self.fl.alts}
@@ -848,6 +852,15 @@ def helpers(ctx):
             info = (fl.reps[0][3] or [None])[0]
             chain = [c[0] for c in (info or {}).get('chain', [])]
             okd = chain == ['lines', 'map'] and fl.alts[1][1][0].endswith('=True') and show(strip([h for h in fl.holes if h[0] == int(m.group(1))][0][1])) == show(strip([h for h in fl.holes if h[0] == int(m.group(2))][0][1]))
+        m2 = re.fullmatch(r'OPT0\[ REP0\( ALT0\{ # ! \[ doc = ' + H + r' \] \|\| # \[ doc = ' + H + r' \] \} \)\* \]', s)
+        if not okd and m2:
+            # the same written as a loop that extends the stream, under `if let Some(doc)`
+            cond = fl.opts[0][1] if fl.opts else None
+            srcs = fl.reps[0][1] if fl.reps else []
+            src_ok = len(srcs) == 1 and bool([c_ for c_ in calls_in(srcs[0]) if c_[1].endswith('::lines')]) and not any(
+                re.search(r'Iterator::(rev|skip|take|filter|step_by)$', c_[3]) for c_ in calls_in(srcs[0]))
+            okd = cond is not None and cond[0] == 'is_some' and strip(cond[1])[0] == 'arg' and src_ok and fl.alts[0][1][0].endswith('=True') and \
+                show(strip([h for h in fl.holes if h[0] == int(m2.group(1))][0][1])) == show(strip([h for h in fl.holes if h[0] == int(m2.group(2))][0][1]))
         ctx.ob(['C17'], 'R-TMPL', 'docs|line-by-line', okd, 'docs are emitted as one #[doc = <line>] per line of the text, in order (#![doc] when is_module_doc), nothing when there is no doc: %s' % s, loc(f.span))
     except LookupError:
         ctx.fail_closed(['C17'], 'R-TMPL', 'docs|line-by-line', 'doc_to_tokens not found')
